@@ -5,11 +5,9 @@ go 1.24.2
 require (
 	github.com/AdguardTeam/golibs v0.0.0
 	github.com/anishathalye/porcupine v1.3.0
+	golang.org/x/net v0.39.0
 )
 
-require (
-	golang.org/x/net v0.39.0 // indirect
-	golang.org/x/text v0.24.0 // indirect
-)
+require golang.org/x/text v0.24.0 // indirect
 
 replace github.com/AdguardTeam/golibs => /repo
